@@ -93,7 +93,7 @@ func runRules(evs []Event, cfg *configuration.Configuration) (string, []Event) {
 }
 
 func allGenCfg() GenCfg {
-	return GenCfg{MaxDepth: 5, Budget: 25}
+	return GenCfg{MaxDepth: 5, Budget: 25, EmptyData: true}
 }
 
 var mutationPool = []string{"n", "t", "pi:5", "ni:7", "fl:3ff8000000000000", "nan:0", "l", "m", "e", "nd", "end", "end", "pad", "cm:0:41",
